@@ -34,3 +34,62 @@ Proof.
                  | unfold narrowing_witness; split; [vm_compute; reflexivity|]; split; [vm_compute; reflexivity|];
                    eexists; eexists; split; [vm_compute; reflexivity|]; split; vm_compute; reflexivity ].
 Qed.
+
+From TV Require Import Proofs.AbiNoPanic Proofs.IntrinsicPlace.
+
+Lemma gen_chars_covered : chars_covered gen_codec = true.
+Proof. vm_compute. reflexivity. Qed.
+
+(* defect (iv), DESIGN section 6 #13: signature `S_f`, the call (1, 2) passes the call check and panics *)
+Definition calltyping_params : list sparam := [PInt 83 false false; PPad 95; PFloat false].
+Definition calltyping_witness : Prop :=
+  exists sig, abi_of_params gen_codec false calltyping_params = Some sig /\
+    (* accepted although the second argument is not a float ... *)
+    check_call gen_codec sig [int_arg 1; int_arg 2] = true /\
+    is_panic (encode_args no_sjis gen_codec true sig [int_arg 1; int_arg 2] None) = true /\
+    (* ... and the well-typed call is rejected *)
+    check_call gen_codec sig [int_arg 1; mkarg (AFloat 1073741824) false] = false.
+
+Lemma calltyping_refuted : cd_match_skips_padding gen_codec = false -> calltyping_witness.
+Proof.
+  intro E. first [ vm_compute in E; discriminate E
+                 | unfold calltyping_witness; eexists; split; [vm_compute; reflexivity|]; repeat split; vm_compute; reflexivity ].
+Qed.
+
+(* defect (ii), DESIGN section 6 #5: `z(bs=0)` is accepted and encoding any string panics *)
+Definition bszero_witness : Prop :=
+  exists sig, abi_of_params gen_codec false [PStr (SBlock 0) 0 0 0 false] = Some sig /\
+    check_call gen_codec sig [mkarg (AStr [97; 98; 99]) false] = true /\
+    encode_args (fun s => Some s) gen_codec true sig [mkarg (AStr [97; 98; 99]) false] None = Panic P_DIV0.
+
+Lemma bszero_refuted : cd_bs_checked gen_codec = false -> bszero_witness.
+Proof.
+  intro E. first [ vm_compute in E; discriminate E
+                 | unfold bszero_witness; eexists; split; [vm_compute; reflexivity|]; split; vm_compute; reflexivity ].
+Qed.
+
+(* defect (iii), DESIGN section 6 #4: `900 S_S` as AssignOp, `$REG[10000] = 5;` *)
+Definition placement_sig : list enc := [EInt 4 true false false; EPad 4; EInt 4 true false false].
+Definition placement_builder : builder :=
+  {| b_jump := None; b_plain := [int_arg 5]; b_outputs := [mkarg (AInt 10000) true] |}.
+Definition placement_witness : Prop :=
+  exists p, from_abi (IAssignOp TInt) placement_sig = Ok p /\
+            into_vec gen_codec p placement_builder (int_arg 0) = Panic P_INDEX.
+
+Lemma placement_refuted : cd_place_with_padding gen_codec = false -> placement_witness.
+Proof.
+  intro E. first [ vm_compute in E; discriminate E
+                 | unfold placement_witness; eexists; split; vm_compute; reflexivity ].
+Qed.
+
+(* nulless + furibug: the second string of the script reads back with the first one's masked bytes attached *)
+Definition nullessfuri_sig : list enc := [EStr (SFixed 8 true) 0 0 0 true].
+Definition nullessfuri_witness : Prop :=
+  exists r1 st1 r2 st2,
+    encode_args (fun s => Some s) gen_codec false nullessfuri_sig [mkarg (AStr [124; 97]) false] None = Ok (r1, st1) /\
+    encode_args (fun s => Some s) gen_codec false nullessfuri_sig [mkarg (AStr [98]) false] st1 = Ok (r2, st2) /\
+    r_warn r2 = [] /\
+    decode_call (fun b => Some b) gen_codec nullessfuri_sig r2 = Ok ([mkarg (AStr [98; 124; 97]) false], []).
+
+Lemma nullessfuri_refuted : nullessfuri_witness.
+Proof. unfold nullessfuri_witness. do 4 eexists. split; [vm_compute; reflexivity|]. split; [vm_compute; reflexivity|]. split; vm_compute; reflexivity. Qed.
